@@ -74,6 +74,11 @@ pub fn dstr<T: DisplayStr>(x: &T) -> (r: String)
     ensures r@ == x.dview()
 { unimplemented!() }
 
+/// R3: `{:?}` placeholders – the Debug text is not specified
+pub uninterp spec fn debug_text<T>(x: T) -> Seq<char>;
+pub struct DebugOf<'a, T>(pub &'a T);
+impl<'a, T> DisplayStr for DebugOf<'a, T> { open spec fn dview(&self) -> Seq<char> { debug_text(*self.0) } }
+
 #[verifier::external_body]
 pub fn sconcat(a: String, b: String) -> (r: String)
     ensures r@ == a@ + b@
